@@ -61,8 +61,24 @@ pub static C13: RefProp = RefProp {
 };
 pub static C04: RefProp = RefProp { id: "C04", profile: Profile::CONSTANTS, nontrivial: |c| c["literals"].as_u64().unwrap_or(0) > 0, twin: true };
 
+fn rss_mb() -> u64 {
+    std::fs::read_to_string("/proc/self/statm")
+        .ok()
+        .and_then(|s| s.split_whitespace().nth(1).and_then(|p| p.parse::<u64>().ok()))
+        .map(|pages| pages * 4096 / (1 << 20))
+        .unwrap_or(0)
+}
+
 fn observe(text: &str) -> (String, Outcome) {
+
+    let rss_before = rss_mb();
     let run = exec::run_program(text, false);
+    if std::env::var("VERIF_TRACE").is_ok() {
+        let after = rss_mb();
+        if after > rss_before + 300 {
+            eprintln!("RSS {rss_before} -> {after} MB: {text}");
+        }
+    }
     let shown = match &run.outcome {
         Outcome::Value(v) => format!("value {}", canon::canon(v).show()),
         Outcome::ExecError(k) => format!("run-time error {k}"),
@@ -240,7 +256,7 @@ impl Property for RefProp {
 pub fn run(session: &Session, prop: &'static RefProp, rule: &str) -> i32 {
     crate::engine::run_regressions(session, prop);
     if !session.stopped() {
-        session.run_tapes(prop, session.tier.of(6_000, 400_000), 600, 0);
+        session.run_tapes(prop, session.tier.of(40_000, 2_000_000), 600, 0);
     }
     let stats = session.stats.lock().unwrap();
     let discarded: u64 = stats.discards.values().sum();
